@@ -113,7 +113,8 @@ Inductive dsel := SelField | SelCons (k : string) | SelBounds (k : string) | Sel
 Inductive op :=
 | OCopy (i : nat)                 (* copy, squeeze, transpose, insert_dimension, subspace,
                                      apply_masking, uncompress: same constructs, same names *)
-| OGetDomain (i : nat)            (* f.get_domain() / f.domain *)
+| OGetDomain (i : nat) (keep : list string)   (* f.get_domain() / f.domain; keep = keys of the constructs
+                                     that belong to the domain (field ancillaries do not) *)
 | OFieldSource (i : nat)          (* Field(source=x) *)
 | OConvert (i : nat) (k : string) (keep : list string)   (* f.convert(k); keep = keys of the constructs retained *)
 | ONewField                       (* Field() *)
@@ -179,10 +180,13 @@ Definition convert (f : field) (k : string) (keep : list string) : option field 
 Definition step (e : list field) (o : op) : list field :=
   match o with
   | OCopy i => match nth_error e i with Some f => e ++ [f] | None => e end
-  | OGetDomain i =>
+  | OGetDomain i keep =>
       (* Domain.fromconstructs: a new domain (no own original file names)
          holding the field's metadata constructs *)
-      match nth_error e i with Some f => e ++ [mkF [] None (f_cons f)] | None => e end
+      match nth_error e i with
+      | Some f => e ++ [mkF [] None (filter (fun kc => existsb (String.eqb (fst kc)) keep) (f_cons f))]
+      | None => e
+      end
   | OFieldSource i => match nth_error e i with Some f => e ++ [f] | None => e end
   | OConvert i k keep =>
       match nth_error e i with
